@@ -36,6 +36,9 @@ claimed = {
  "C18": ("lockset analysis on SSA: lock dominance/extent in ServeHTTP, handler entry who-may-call, inter-procedural shared-write analysis for goroutines started in loops",
          "Structural necessary conditions of race freedom: the per-interpreter mutex dominates every per-request state access and is held to return; handlers enter only through ServeHTTP; no goroutine with several live instances reaches an unlocked write to shared memory. Decides lock shape for all interleavings at once; does not decide response equality with a serial order.",
          "trusts go/ssa and static call resolution inside the module; library code assumed not to write falco state", "DESIGN.md §4 C18"),
+ "C13": ("ownership/purity analysis on SSA: store-root derivation (field chains, type assertions, Unwrap) against a returns-fresh least-fixpoint summary, who-may-write rules for operands and right-hand sides, freshness of values entering a local-variable frame, dominance of the frame-restoring defer",
+         "Structural necessary conditions: the expression evaluator and the operators never write through a pointer derived from an operand; assignment operators never write through `right`; every value stored into a frame is fresh (by-value arguments); the restoring defer dominates every successful return of a subroutine call. Decides aliasing shapes for all programs; not slices shared inside values.",
+         "trusts go/ssa; value.Null treated as immutable sentinel; Copy methods assumed to copy", "DESIGN.md §4 C13"),
  "C15": ("comment-slot coverage: parser writer sites resolved to (owner access path, slot) on SSA vs inter-procedural read summaries of the formatter (fixpoint, type-switch narrowing, re-rooting, nested-context exact paths)",
          "Structural necessary condition: every comment slot the parser can fill (169 placement sites) is read by some printer on a matching access path, and formatComment emits every element. A slot nobody reads loses every comment written there, for all programs and configurations. Does not decide order or re-parse position.",
          "trusts go/ssa; one alias entry (shared *Meta of SubroutineParameter and its Name) in c15.go; owners known only by static type are matched weakly (3 sites, counted in evidence)", "DESIGN.md §4 C15"),
